@@ -23,12 +23,39 @@ ASSUMPTIONS = ["shadow table implements the update rules as published in the cla
                "at states the run never touched the policy may be uniform over all actions or over the maximisers of the initial Q (the two coincide for constant initial Q)"]
 
 
+def _bandit(rng):
+    """one decision state with 2-3 arms that pay the same and end the episode"""
+    sp = G.Spec()
+    sp.family = "bandit-near-tie"
+    sp.states = ["start", "end"]
+    arms = rng.sample(["x", "y", "z"], rng.randint(2, 3))
+    r = float(rng.choice([1, 2, -1, 5]))
+    sp.acts = {"start": tuple(arms), "end": (arms[0],)}
+    for a in arms:
+        sp.P[("start", a)] = [("end", 1.0)]
+        sp.kind[("start", a)] = "dict"
+        sp.R[("start", a, "end")] = r
+    sp.P[("end", arms[0])] = [("end", 1.0)]
+    sp.kind[("end", arms[0])] = "dict"
+    sp.R[("end", arms[0], "end")] = 0.0
+    sp.flag = {"end"}
+    sp.init = [("start", 1.0)]
+    sp.gamma = rng.choice([0.9, 1.0])
+    sp.meta["abs_kinds"] = ["zero"]
+    return sp
+
+
 def run_case(case, rng):
     from msdm.algorithms import tdlearning as td
     from mon.gen import build as Bd
 
     n_max = 10 if case.tier == "thorough" and rng.random() < 0.3 else 6
-    sp = G.random_spec(rng, "proper", n_max=n_max, allow_implicit=False)
+    near_tie = rng.random() < 0.15
+    if near_tie:
+        sp = _bandit(rng)
+    else:
+        sp = G.random_spec(rng, "proper", n_max=n_max, allow_implicit=False,
+                           reward_scale=rng.choice([1.0, 1.0, 1.0, 100.0]))
     if rng.random() < 0.3 and sp.flag:
         ab = rng.choice(sorted(sp.flag, key=repr))
         cur = [s for s, p in sp.init if p > 0]
@@ -42,10 +69,14 @@ def run_case(case, rng):
     gamma = sp.gamma
     learner_name = rng.choice(["QLearning", "SARSA", "ExpectedSARSA", "DoubleQLearning"])
     case.count(f"learner:{learner_name}")
-    alpha = rng.choice([0.0, 0.1, 0.5, 0.5, 1.0])
+    alpha = rng.choice([0.0, 0.1, 0.5, 0.5, 1.0, 0.9])
     eps = rng.choice([0.0, 0.05, 0.5, 1.0])
     temp = rng.choice([0.0, 0.0, 0.5, 5.0])
     episodes = rng.randint(1, 30 if case.tier == "thorough" else 15)
+    if near_tie:
+        # equally paid arms pulled a different number of times under a large step size: Q-values that differ
+        # only in the 9th-12th digit, so "exactly the maximal-Q actions" is a sharp statement
+        alpha, eps, temp, episodes = rng.choice([0.9, 0.99, 0.8]), 1.0, 0.0, rng.randint(25, 45)
     seed = rng.choice([0, 1, 7, rng.randrange(2 ** 31)])
     if rng.random() < 0.5:
         q0c = rng.choice([0.0, 1.0, -2.0, 10.0])
@@ -209,14 +240,12 @@ def run_case(case, rng):
         if d is case.FAIL:
             continue
         got = {a: p for a, p in d.items() if p > 0}
-        if learner_name == "DoubleQLearning":
-            refrow = {a: 0.5 * sh1.row(s)[a] + 0.5 * sh2.row(s)[a] for a in sp.acts[s]} if s in touched else None
-        else:
-            refrow = sh1.row(s) if s in touched else None
         allowed = []
-        if refrow is not None and s in touched:
-            m = max(refrow.values())
-            allowed.append({a for a in refrow if refrow[a] == m})
+        if s in Q.keys():
+            # the statement is about the RETURNED Q-table (already compared with the shadow above)
+            row = dict(Q[s])
+            m = max(row.values())
+            allowed.append({a for a in row if row[a] == m})
         else:
             allowed.append(set(sp.acts[s]))
             ir = init_row(s)
